@@ -151,14 +151,20 @@ func (r *nhRun) apply(e nhEvent) error {
 			effective = false
 			break
 		}
+		assigned := b.ID().Scrub()
 		if e.Op == "submit" {
-			n.submit(b)
+			assigned = n.submitID(b)
 		} else {
 			n.submitViaAgent(b)
+			if pb, perr := b.PayloadBlock(); perr == nil {
+				if id, ok := n.assignedID(pb.Value.(*bpv7.PayloadBlock).Data(), before); ok {
+					assigned = id
+				}
+			}
 		}
 		if !t.Accepted {
 			t.Accepted, t.AcceptedAt = true, vtime.Now()
-			t.ID = b.ID().Scrub()
+			t.ID = assigned
 			if ab, err := b.ExtensionBlock(bpv7.ExtBlockTypeBundleAgeBlock); err == nil {
 				t.AgeAtAccept = ab.Value.(*bpv7.BundleAgeBlock).Age()
 			}
@@ -281,7 +287,7 @@ func (r *nhRun) key() string {
 			bucket++
 		}
 	}
-	return strings.Join(parts, ";") + "|up=" + strings.Join(r.n.connectedPeers(), ",") + "|" + strings.Join(outs, ",") + fmt.Sprintf("|t%d", bucket)
+	return strings.Join(parts, ";") + "|up=" + strings.Join(r.n.connectedAdapters(), ",") + "|" + strings.Join(outs, ",") + fmt.Sprintf("|t%d", bucket)
 }
 
 type nhTask struct {
